@@ -171,3 +171,14 @@ for p in list(NOT_APPLICABLE):
         del NOT_APPLICABLE[p]
 for e in ENGINES:
     e['serves_properties'] = sorted(CHECKS)
+
+_c('C18', 'model_checking',
+   'lock-step differential explicit-state search (BFS with de-duplication on digest pairs) of the two real server implementations under a shared virtual clock',
+   'Breadth-first search over 25 actions (opens incl. rejected and WebSocket, polls, POST bodies incl. CLOSE / invalid types / garbage / 17 packets, all upgrade steps incl. a failing frame, steady-state frames, peer close, application send and disconnect, clock ticks, refused requests) to depth 4 (thorough 5); every history is applied in lock step to Server and AsyncServer and after each history the per-session event logs (kind, payload, order, reason), delivered messages per transport, admission statuses, liveness and transport are compared; de-duplication on the pair of canonical state digests.',
+   'Default schedules; heartbeat settings large enough that silence-caused ends stay outside the bounded histories (C07 bounds them per server); timeout-class reasons compared as one class; enabledness of actions is decided client-side only.',
+   'DESIGN.md 5 C18')
+for p in list(NOT_APPLICABLE):
+    if p in CHECKS:
+        del NOT_APPLICABLE[p]
+for e in ENGINES:
+    e['serves_properties'] = sorted(CHECKS)
